@@ -13,7 +13,13 @@ REPO = os.environ.get('RKCOMMON_REPO', '/repo')
 GUARD = 'RKCOMMON_VERIF'
 
 
+# VERIF_COV=1: coverage audit builds (tools/covaudit.py) - g++ --coverage, no sanitizer, own build root; never used by a check
+COV = bool(os.environ.get('VERIF_COV'))
+
+
 def build_root():
+    if COV:
+        return os.path.join(VERIF, 'build', 'cov')
     if REPO == '/repo':
         return os.path.join(VERIF, 'build')
     tag = hashlib.sha1(REPO.encode()).hexdigest()[:8]
@@ -66,6 +72,8 @@ class Lock:
 def build_lib(cfg):
     """configure (once) + incremental build of librkcommon.a for one config"""
     cxx, tasking, san, _defs, _libs = LIBCFG[cfg]
+    if COV:
+        cxx, san = 'g++', '--coverage -O0'
     root = build_root()
     d = os.path.join(root, 'lib', cfg)
     log = os.path.join(root, 'log', 'lib-%s.log' % cfg)
@@ -133,6 +141,9 @@ def harness_cmd(b):
         rclib = ''
     else:
         rclib = '-lrapidcheck'
+    if COV and not b.get('fuzzer'):
+        cxx, san = 'g++', '--coverage -DPBT_COVERAGE'
+        b = dict(b, opt='-O0 -g')
     cmd = '%s -std=gnu++17 %s %s -D%s %s %s %s -MMD -MF %s.d %s -o %s %s %s %s -ldl -lpthread' % (
         cxx, b.get('opt', OPT), san, GUARD, defs, b.get('flags', ''), inc, out,
         ' '.join(srcs), out, libs, rclib, b.get('libs', ''))
